@@ -1940,8 +1940,8 @@ class StoreProp(Prop):
                 bv = 'b' + ''.join(r.choice('01') for _ in range(ln))
                 t, v = r.choice([(bl, bv), (['cont', 'u8', bl, 'u16'], ['s', '1', bv, '2']),
                                  (['list', bl, 3], ['s', bv, 'b1']), (['vec', ['cont', bl], 2], ['s', ['s', bv], ['s', 'b']])])
-            elif k % 10 in (6, 7):
-                if k % 10 == 6:
+            elif k % 10 in (5, 6, 7):
+                if k % 10 in (5, 6):
                     # packed lists with zero elements at the end (pops that change nothing in the chunk), snapshots in between
                     e = r.choice(['u64', 'u16', 'u8', 'bool', 'u128'])
                     per = 32 // UINT_W.get(e, 1)
@@ -1972,7 +1972,7 @@ class StoreProp(Prop):
             sg = StoreGen(g, t, v)
             ops = sg.history(g.rng.choice([6, 15, 40] if tier == 'quick' else [6, 15, 40, 100]), self.p_bad, 0.06)
             # one in four histories runs LAZILY: nothing is hashed or read before the end
-            out.append(show(['storel' if k % 3 == 2 else 'store', t, v] + ops))
+            out.append(show(['storel' if k % 3 == 2 or k % 10 in (5, 6) else 'store', t, v] + ops))
         return out
 
     def shrink_candidates(self, case):
